@@ -593,8 +593,12 @@ fn descendant_and_self(node: dom::XmlNode) -> Vec<dom::XmlNode> {
 fn following(node: dom::XmlNode) -> Vec<dom::XmlNode> {
     let mut nodes = vec![];
 
-    for n in following_sibling(node) {
-        nodes.append(&mut descendant_and_self(n));
+    // Everything after the node in document order that is not a descendant: the following
+    // siblings of the node and of each of its ancestors, with their descendants.
+    for a in ancestor_and_self(node) {
+        for n in following_sibling(a) {
+            nodes.append(&mut descendant_and_self(n));
+        }
     }
 
     nodes
@@ -627,10 +631,14 @@ fn namespace(node: dom::XmlNode) -> error::Result<Vec<dom::XmlNode>> {
 fn preceding(node: dom::XmlNode) -> Vec<dom::XmlNode> {
     let mut nodes = vec![];
 
-    for p in preceding_sibling(node) {
-        let mut desc = descendant_and_self(p);
-        desc.reverse();
-        nodes.append(&mut desc);
+    // Everything before the node in document order that is not an ancestor: the preceding
+    // siblings of the node and of each of its ancestors, with their descendants.
+    for a in ancestor_and_self(node) {
+        for p in preceding_sibling(a) {
+            let mut desc = descendant_and_self(p);
+            desc.reverse();
+            nodes.append(&mut desc);
+        }
     }
 
     nodes
